@@ -357,6 +357,8 @@ class Interp:
             return self.constant(t[6:].strip())
         if '::' in t and (re.fullmatch(r'[A-Za-z_][\w:<>, ]*', t) or re.fullmatch(r'<.* as .*>::\w+', t)):
             return Opaque('item ' + t)          # function item / constructor passed as a value
+        if re.fullmatch(r'[A-Za-z]\w*(::<.*>)?', t) and not re.fullmatch(r'_\d+', t):
+            return Opaque('item ' + t)          # bare function item (e.g. `normalize_path` handed to map())
         return self.place(t, p)
 
     def constant(self, c):
@@ -470,6 +472,8 @@ class Interp:
             return Adt(strip_generics(m.group(1)), [self.operand(v, p) for _, v in fields], [n.strip() for n, _ in fields])
         if re.fullmatch(r'[\w:<>, &\']+', t) and '::' in t:
             return Adt(strip_generics(t), [])
+        if re.fullmatch(r'[A-Z]\w*', t):
+            return Adt(t, [])                   # unit variant printed without its path (e.g. `Generate`)
         return self.place(t, p)
 
     def _next(self):
